@@ -3,6 +3,8 @@
 # scratch worktree: applies, builds, full ctest passes, demo fails with the change and passes without.
 # Writes /tmp/mut_out/<id>/confirm.txt ; removes the worktree afterwards.
 id="$1"; out="${2:-/tmp/mut_out/$id}"; wt="/tmp/cf_$id"
+# NOMKDIR=1: the demo takes the path of a FILE it creates itself (do not pre-create a directory of that name)
+mk() { [ -n "${NOMKDIR:-}" ] || mkdir -p "$1"; }
 log="$out/confirm.txt"; : > "$log"
 demo=$(ls "$out"/*_demo.c 2>/dev/null | head -1)
 git -C /repo worktree remove --force "$wt" >/dev/null 2>&1; rm -rf "$wt"
@@ -14,10 +16,10 @@ mkdir -p "$wt/_tmp"
 ( cd "$wt" && TEST_TMPDIR="$wt/_tmp" ctest --test-dir _build -j6 --timeout 900 2>&1 | grep -E "tests passed|FAILED|Failed|\*\*\*" ) >> "$log" 2>&1
 if [ -n "$demo" ]; then
   cc -O1 -w -I"$wt/include" -I"$wt/src" "$demo" "$wt/_build/liblcdb.a" -lpthread -lm -o "$wt/demo_mut" >> "$log" 2>&1
-  mkdir -p "$wt/_tmp/demo_db"; ( cd "$wt/_tmp" && timeout 300 "$wt/demo_mut" "$wt/_tmp/demo_db" > "$wt/demo_mut.out" 2>&1; echo "DEMO with change: exit=$? $(tail -1 "$wt/demo_mut.out" | cut -c1-120)" ) >> "$log"
+  mk "$wt/_tmp/demo_db"; ( cd "$wt/_tmp" && timeout 300 "$wt/demo_mut" "$wt/_tmp/demo_db" > "$wt/demo_mut.out" 2>&1; echo "DEMO with change: exit=$? $(tail -1 "$wt/demo_mut.out" | cut -c1-120)" ) >> "$log"
   cc -O1 -w -I/repo/include -I/repo/src "$demo" /repo/_build/liblcdb.a -lpthread -lm -o "$wt/demo_ok" >> "$log" 2>&1
   rm -rf "$wt/_tmp2"; mkdir -p "$wt/_tmp2"
-  mkdir -p "$wt/_tmp2/demo_db"; ( cd "$wt/_tmp2" && timeout 300 "$wt/demo_ok" "$wt/_tmp2/demo_db" > "$wt/demo_ok.out" 2>&1; echo "DEMO unchanged:   exit=$? $(tail -1 "$wt/demo_ok.out" | cut -c1-120)" ) >> "$log"
+  mk "$wt/_tmp2/demo_db"; ( cd "$wt/_tmp2" && timeout 300 "$wt/demo_ok" "$wt/_tmp2/demo_db" > "$wt/demo_ok.out" 2>&1; echo "DEMO unchanged:   exit=$? $(tail -1 "$wt/demo_ok.out" | cut -c1-120)" ) >> "$log"
 fi
 git -C /repo worktree remove --force "$wt" >/dev/null 2>&1; rm -rf "$wt"
 cat "$log"
